@@ -4,4 +4,5 @@ namespace SleapVerif.Arch
 theorem tableUnet_8_r1 : tableUnet 8 ⟨1, 1⟩ = true := by decide +kernel
 theorem tableUnet_8_r32 : tableUnet 8 ⟨3, 2⟩ = true := by decide +kernel
 theorem tableUnet_8_r2 : tableUnet 8 ⟨2, 1⟩ = true := by decide +kernel
+theorem tableUnetCpb1_8 : tableUnetCpb1 8 = true := by decide +kernel
 end SleapVerif.Arch
